@@ -1,5 +1,6 @@
 (* Props/C06.v — property C06: each caller gets the true outcome of its own items. *)
-From Verif Require Import Base.ListX Batch.Split Batch.Shard Batch.Wait.
+From Coq Require Import Permutation.
+From Verif Require Import Base.ListX Batch.Split Batch.Shard Batch.Wait Batch.EndToEnd.
 
 (* Apportioning is exact, for every shard history: what a waiter has been told about (over all
    sends) plus what is still pending for it equals what it submitted — so a response never
@@ -42,6 +43,35 @@ Proof.
 Qed.
 Print Assumptions C06_cancel.
 
+(* The composition (early_return off, caller context alive): for EVERY history of a shard ending with the
+   final flush, EVERY assignment of success/failure to its exports and EVERY order in which the concurrent
+   exports answer, a caller's Consume call returns when the last response for its items arrives — not while
+   any of its items is unanswered — and the error it returns wraps exactly the failures of the exports that
+   carried its items: nil iff all of those succeeded. *)
+Theorem C06_end_to_end : forall d (err : nat -> option N) c w evs s1 es rs',
+  valid c -> all_pos d evs -> run d c (init d) (evs ++ [Final]) = (s1, es) ->
+  (0 < recv_for d w evs)%N ->
+  Permutation (responses d err w es) rs' ->
+  wait_run (Z.of_N (recv_for d w evs)) (map GotResp rs') = Returned (failures rs') false /\
+  (failures rs' = [] <-> all_ok_from d err w 0 es) /\
+  (forall part, Forall (fun r => (0 < r_count r)%Z) part -> (total part < Z.of_N (recv_for d w evs))%Z ->
+     exists n errs, wait_run (Z.of_N (recv_for d w evs)) (map GotResp part) = Waiting n errs).
+Proof. intros d err c w evs s1 es rs' Hv Hp H Hn Hperm. exact (end_to_end d err c w evs s1 es rs' Hv Hp H Hn Hperm). Qed.
+Print Assumptions C06_end_to_end.
+
+Local Open Scope N_scope.
+(* non-vacuity: two callers merged and split over three exports (max size 2), the middle export fails *)
+Example C06_end_to_end_example :
+  let c := {| send_size := 2; max_size := 2; timer := true |} in
+  let evs := [@Recv 1 [((1, 0), [((2, 0), [10; 11; 12])])] 1 1; @Recv 1 [((1, 0), [((2, 0), [20; 21])])] 2 2] in
+  let es := snd (run 1 c (init 1) (evs ++ [Final])) in
+  let err := fun k => if Nat.eqb k 1 then Some 7%N else None in
+  map (s_sent 1) es = [2; 2; 1]%N /\
+  responses 1 err 1 es = [{| r_err := None; r_count := 2%Z |}; {| r_err := Some 7%N; r_count := 1%Z |}] /\
+  responses 1 err 2 es = [{| r_err := Some 7%N; r_count := 1%Z |}; {| r_err := None; r_count := 1%Z |}] /\
+  wait_run 3%Z (map GotResp (rev (responses 1 err 1 es))) = Returned [7%N] false.
+Proof. vm_compute. repeat split; reflexivity. Qed.
+
 Example C06_example :
-  wait_run 5 (map GotResp [{| r_err := None; r_count := 2 |}; {| r_err := Some 7%N; r_count := 3 |}]) = Returned [7%N] false.
+  wait_run 5%Z (map GotResp [{| r_err := None; r_count := 2%Z |}; {| r_err := Some 7%N; r_count := 3%Z |}]) = Returned [7%N] false.
 Proof. vm_compute. reflexivity. Qed.
